@@ -31,7 +31,7 @@ class RCBase(Contract):
     props = ("C04", "C05", "C06", "C18")
     raises_props = ("C18",)
     task_sets = (("Fm",), ("Fo",), ("Vm",), ("Fm", "Vo"), ("Fm", "Fm"))
-    worker_kinds = ("worker",)
+    worker_kinds = ("worker", "selected")
     inlines = (
         "constraint.Constraint.__init__",
         "constraint.Constraint.set_z3_assertions",
@@ -53,12 +53,20 @@ class RCBase(Contract):
         return out
 
     def make_resource(self, ps, P, case):
-        if case["res"] == "worker":
+        if case["res"] in ("worker", "selected"):
             return ps.Worker(name="w")
         return ps.CumulativeWorker(name="w", size=2)
 
     def unit_workers(self, res):
         return [res] if type(res).__name__ == "Worker" else list(res._cumulative_workers)
+
+    def require(self, ps, P, case, t, res, i):
+        if case["res"] == "selected":
+            # the constrained worker is not assigned directly: each task chooses between it and another one
+            other = ps.Worker(name=f"other{i+1}")
+            t.add_required_resource(ps.SelectWorkers(list_of_workers=[res, other], nb_workers_to_select=1))
+        else:
+            t.add_required_resource(res)
 
     def scenario(self, ps, P, case):
         P.assume(P.int("H") >= 1)
@@ -72,12 +80,12 @@ class RCBase(Contract):
             if "max" in vdt:
                 P.assume(P.int(f"t{i+1}_max") >= P.int(f"t{i+1}_min"))
             t = make_task(ps, P, cls, f"t{i+1}", optional=opt, vdt=vdt)
-            t.add_required_resource(res)
+            self.require(ps, P, case, t, res, i)
             tasks.append(t)
         c = self.build_constraint(ps, P, case, res, tasks)
         solver = ps.SchedulingSolver(problem=pb)
         solver.initialize()
-        return dict(pb=pb, res=res, tasks=tasks, c=c, solver=solver)
+        return dict(pb=pb, res=res, tasks=tasks, c=c, solver=solver, direct=case["res"] != "selected")
 
     def held(self, ctx):
         """[(task, unit worker, held condition, bs, be)]"""
@@ -86,7 +94,9 @@ class RCBase(Contract):
             for u in self.unit_workers(ctx["res"]):
                 bs, be = busy(u, t)
                 # on a unit of a cumulative worker the interval is a real one only when non-negative
-                cond = spec.sched(t) if type(ctx["res"]).__name__ == "Worker" else And(spec.sched(t), bs >= 0)
+                # (likewise when the worker is chosen through a selection: not selected = parked in the past)
+                direct = type(ctx["res"]).__name__ == "Worker" and ctx.get("direct", True)
+                cond = spec.sched(t) if direct else And(spec.sched(t), bs >= 0)
                 out.append((t, u, cond, bs, be))
         return out
 
@@ -155,7 +165,7 @@ def intervals(P, n, prefix="", nonneg=True, ordered=True, distinct=False):
 class ResourceUnavailable(RCBase):
     lifts = True  # element-wise meaning: holds for every list length once the loops are independent (contracts/loops.py)
     target = "resource_constraint.ResourceUnavailable.__init__"
-    worker_kinds = ("worker", "cumulative")
+    worker_kinds = ("worker", "cumulative", "selected")
     bounded = "1..2 tasks on the resource x 1..2 intervals (3 intervals in thorough); all integers symbolic"
 
     def extra_cases(self, tier):
@@ -294,7 +304,7 @@ class PeriodicLemma(Contract):
 class ResourcePeriodicallyUnavailable(RCBase):
     lifts = True  # element-wise meaning: holds for every list length once the loops are independent (contracts/loops.py)
     target = "resource_constraint.ResourcePeriodicallyUnavailable.__init__"
-    worker_kinds = ("worker", "cumulative")
+    worker_kinds = ("worker", "cumulative", "selected")
     bounded = "period in {3,5,7} (quick) / {2..7,10} (thorough), one interval per period, 1..2 tasks; other integers symbolic"
     task_sets = (("Fm",), ("Fo",), ("Vm",), ("Fm", "Vo"))
     thorough_task_sets = ()
@@ -350,7 +360,11 @@ class ResourcePeriodicallyUnavailable(RCBase):
         return {"busy interval runs into the next period's window": Or(*rs)}
 
     def complete_enabled(self, case):
-        return False  # the encoding is deliberately conservative w.r.t. the activity range; only soundness is claimed
+        # on a directly assigned plain worker, with and without an activity range
+        return case["res"] == "worker"
+
+    def complete_hyps(self, P, ctx, case):
+        return [Implies(cond, be > bs) for t, u, cond, bs, be in self.held(ctx)]
 
     def clauses(self, P, ctx, case):
         if case["res"] != "worker":
@@ -363,23 +377,26 @@ class ResourcePeriodicallyUnavailable(RCBase):
 class WorkLoad(RCBase):
     lifts = True  # element-wise meaning: holds for every list length once the loops are independent (contracts/loops.py)
     target = "resource_constraint.WorkLoad.__init__"
-    worker_kinds = ("worker", "cumulative")
+    worker_kinds = ("worker", "cumulative", "selected")
     bounded = "1..2 tasks on the resource x 1..2 intervals; all integers symbolic"
     task_sets = (("Fm",), ("Vo",), ("Fm", "Vo"), ("Fm", "Fm"))
 
     def extra_cases(self, tier):
-        return [dict(kind=k, nint=n) for k in ("exact", "max", "min") for n in (1, 2)]
+        # "default": the kind is not given -- declared default: a maximum
+        return [dict(kind=k, nint=n) for k in ("exact", "max", "min") for n in (1, 2)] + [dict(kind="default", nint=1)]
 
     def build_constraint(self, ps, P, case, res, tasks):
         ivs = intervals(P, case["nint"], ordered=False, distinct=True)
         d = {iv: P.int(f"bound{i}") for i, iv in enumerate(ivs)}
+        if case["kind"] == "default":
+            return ps.WorkLoad(resource=res, dict_time_intervals_and_bound=d)
         return ps.WorkLoad(resource=res, dict_time_intervals_and_bound=d, kind=case["kind"])
 
     def meaning(self, P, ctx, case):
         cs = []
         for i, (lo, hi) in enumerate(intervals(P, case["nint"], ordered=False, distinct=True)):
             tot = z3.Sum([If(cond, spec.overlap_len(bs, be, lo, hi), 0) for t, u, cond, bs, be in self.held(ctx)])
-            cs.append(spec.cmp_kind(case["kind"], tot, P.int(f"bound{i}")))
+            cs.append(spec.cmp_kind("max" if case["kind"] == "default" else case["kind"], tot, P.int(f"bound{i}")))
         return And(*cs)
 
     def complete_regions(self, P, ctx, case):
@@ -414,11 +431,14 @@ class ResourceTasksDistance(DistBase):
     inlines = RCBase.inlines + ("util.sort_no_duplicates",)
 
     def extra_cases(self, tier):
-        return [dict(mode=m, nint=n) for m in ("exact", "min", "max") for n in (0, 1)]
+        # "default": the mode is not given -- declared default: exactly the distance
+        return [dict(mode=m, nint=n) for m in ("exact", "min", "max") for n in (0, 1)] + [dict(mode="default", nint=0)]
 
     def build_constraint(self, ps, P, case, res, tasks):
         P.assume(P.int("distance") >= 0)
-        kw = dict(resource=res, distance=P.int("distance"), mode=case["mode"])
+        kw = dict(resource=res, distance=P.int("distance"))
+        if case["mode"] != "default":
+            kw["mode"] = case["mode"]
         if case["nint"]:
             kw["list_of_time_intervals"] = intervals(P, case["nint"], prefix="d", ordered=False)
         return ps.ResourceTasksDistance(**kw)
@@ -430,7 +450,7 @@ class ResourceTasksDistance(DistBase):
         cs = []
         d = T(P.int("distance"))
         for cond, gap, prev_end, next_start in self.gaps(ctx):
-            rel = {"exact": gap == d, "min": gap >= d, "max": gap <= d}[case["mode"]]
+            rel = {"exact": gap == d, "min": gap >= d, "max": gap <= d, "default": gap == d}[case["mode"]]
             if case["nint"]:
                 inside = Or(*[And(T(lo) <= prev_end, next_start <= T(hi)) for lo, hi in intervals(P, case["nint"], prefix="d", ordered=False)])
                 cs.append(Implies(And(cond, inside), rel))
@@ -466,7 +486,7 @@ class ResourceNonDelay(DistBase):
 class ResourceInterrupted(RCBase):
     lifts = True  # element-wise meaning: holds for every list length once the loops are independent (contracts/loops.py)
     target = "resource_constraint.ResourceInterrupted.__init__"
-    worker_kinds = ("worker", "cumulative")
+    worker_kinds = ("worker", "cumulative", "selected")
     bounded = "1..2 tasks x 1..2 interruptions; all integers symbolic"
     task_sets = (("Fm",), ("Fo",), ("Vm",), ("Vo",), ("Fm", "Vm"))
 
@@ -528,11 +548,13 @@ class ResourcePeriodicallyInterrupted(RCBase):
 
     def extra_cases(self, tier):
         periods = (4, 6) if tier == "quick" else (3, 4, 5, 6, 7)
-        return [dict(period=p, vmax=False, mask=m) for p in periods for m in ("none", "start", "end", "both")]
+        return [dict(period=p, vmax=False, mask=m) for p in periods for m in ("none", "start", "end", "both")] + [dict(period=periods[0], vmax=True, mask="none")]
 
     def cases(self, tier):
-        # with an activity range only the fixed-duration meaning (no overlap) is claimed
-        return [c for c in super().cases(tier) if c["mask"] == "none" or c["ts"][0][0] == "F"]
+        # with an activity range only the fixed-duration meaning (no overlap) is claimed; a maximum duration only
+        # concerns variable-duration tasks
+        out = [c for c in super().cases(tier) if c["mask"] == "none" or c["ts"][0][0] == "F"]
+        return [c for c in out if not c["vmax"] or c["ts"][0][0] == "V"]
 
     def build_constraint(self, ps, P, case, res, tasks):
         lo, hi = P.int("lo"), P.int("hi")
@@ -563,6 +585,9 @@ class ResourcePeriodicallyInterrupted(RCBase):
                 nmet = (be - off - lo - 1) / p - (bs - off - lo - 1) / p
                 work = t._duration - (hi - lo) * nmet
                 cs.append(Implies(And(cond, be > bs), work >= T(t.min_duration)))
+                if t.max_duration is not None:
+                    # ... and does not exceed the maximum
+                    cs.append(Implies(And(cond, be > bs), work <= T(t.max_duration)))
             else:
                 # the part of the busy interval inside the activity range [start, end) meets no window
                 s_, e_ = bs, be
@@ -574,7 +599,12 @@ class ResourcePeriodicallyInterrupted(RCBase):
         return And(*cs)
 
     def complete_enabled(self, case):
-        return False
+        # completeness (every schedule that respects the documented meaning is admitted): on a directly assigned
+        # plain worker, for tasks of positive length (with an activity range the cases are fixed-duration tasks)
+        return case["res"] == "worker"
+
+    def complete_hyps(self, P, ctx, case):
+        return [Implies(cond, be > bs) for t, u, cond, bs, be in self.held(ctx)]
 
     def clauses(self, P, ctx, case):
         return super().clauses(P, ctx, case) + left_out_clauses(self, P, ctx, case)
@@ -595,6 +625,15 @@ def left_out_clauses(self, P, ctx, case):
                 if hasattr(t, "_duration"):
                     wit.append((t._duration, z3.IntVal(0)))
                 goal = z3.substitute(And(*A), *wit)
+                if ctx.get("direct") is False:
+                    # chosen through a selection: the selection flags and the other worker's interval are
+                    # auxiliary too -- some value of them must do
+                    from psvc.runner import _consts_in_order
+
+                    keep = {"horizon", f"{t.name}_scheduled"}
+                    aux = [c for c in _consts_in_order([goal]) if not c.decl().name().startswith("P_") and c.decl().name() not in keep]
+                    if aux:
+                        goal = z3.Exists(aux, goal)
                 out.append(Clause("complete[an optional task can be left out]", goal, hyps=[Not(spec.sched(t)), hz >= 0, hz <= T(H)], props=("C05", "C06"), kind="complete", bounded=self.bounded))
         return out
 
